@@ -331,6 +331,14 @@ SIBLINGS = {
     "belt_cfb_st": ["beltCFBStepE", "beltCFBStepD"],
     "belt_ecb_st": ["beltECBStepE", "beltECBStepD"],
     "belt_bde_st": ["beltBDEStepE", "beltBDEStepD"],
+    # the same buffering over different state structures with the same field names (round 4; seed C10-5 showed that a
+    # Step without a sibling in its own family was not compared with anything)
+    "bash sponge buffer (pos, buf_len)": ["bashHashStepH", "bashPrgAbsorbStep"],
+    "belt 32-octet block buffer (filled)": ["beltHashStepH", "beltHMACStepA"],
+    "belt AEAD associated data (filled)": ["beltDWPStepA", "beltCHEStepA"],
+    "belt AEAD ciphertext for the tag (filled)": ["beltDWPStepI", "beltCHEStepI"],
+    "belt keystream reserve (reserved)": ["beltCFBStepE", "beltCTRStepE", "beltCHEStepE"],
+    "brng output reserve (reserved)": ["brngCTRStepR", "brngHMACStepR"],
 }
 
 
@@ -343,7 +351,17 @@ def _canon(e, names, ids):
         if e.get("id") in ids:
             return "ST"
         if e.get("rk") == "local":
-            return names.setdefault(e["id"], "L%d" % len(names))
+            syms = names.get("#syms") or {}
+            depth = names.get("#depth", 0)
+            d = syms.get(e["id"])
+            if d is not None and not e.get("p") and depth < 6 and strip(d).get("k") not in ("Call", "Cond"):
+                # a helper local assigned once stands for its defining expression (room = buf_len - st->pos)
+                names["#depth"] = depth + 1
+                try:
+                    return "(%s)" % _canon(d, names, ids)
+                finally:
+                    names["#depth"] = depth
+            return names.setdefault(e["id"], "L%d" % len([k_ for k_ in names if not isinstance(k_, str)]))
         if e.get("rk") == "param":
             return "P:" + ("buf" if e.get("p") else e["n"])
         return e["n"]
@@ -364,24 +382,116 @@ def _canon(e, names, ids):
     return k or "?"
 
 
+def _lin_terms(e, names, ids, sign=1, acc=None):
+    """e as a sum of atoms with integer coefficients: {canonical atom text: coefficient, "": constant}"""
+    if acc is None:
+        acc = {}
+    e = strip(e)
+    if isinstance(e, dict):
+        k = e.get("k")
+        if k == "Int" and ir.int_val(e) is not None:
+            acc[""] = acc.get("", 0) + sign * ir.int_val(e)
+            return acc
+        if k == "Bin" and e["op"] in ("+", "-") and not strip(e["x"]).get("p"):
+            _lin_terms(e["x"], names, ids, sign, acc)
+            _lin_terms(e["y"], names, ids, sign if e["op"] == "+" else -sign, acc)
+            return acc
+        if k == "Bin" and e["op"] == "*":
+            for a, b in ((e["x"], e["y"]), (e["y"], e["x"])):
+                if ir.int_val(a) is not None:
+                    _lin_terms(b, names, ids, sign * ir.int_val(a), acc)
+                    return acc
+        if k == "Ref" and e.get("rk") == "local" and not e.get("p"):
+            d = (names.get("#syms") or {}).get(e["id"])
+            depth = names.get("#depth", 0)
+            if d is not None and depth < 6 and strip(d).get("k") not in ("Call", "Cond"):
+                names["#depth"] = depth + 1
+                try:
+                    return _lin_terms(d, names, ids, sign, acc)
+                finally:
+                    names["#depth"] = depth
+    t = _canon(e, names, ids)
+    acc[t] = acc.get(t, 0) + sign
+    return acc
+
+
+def _fmt_terms(t):
+    return " ".join("%+d*%s" % (c, a) if a else "%+d" % c for a, c in sorted(t.items()) if c != 0) or "0"
+
+
+def _canon_cond(c, names, ids, out, line):
+    """normal form of a branch condition, independent of how the arithmetic is spelled: comparisons become
+    `sum <= 0` / `sum == 0` / `sum != 0` over collected terms (a < b is a + 1 <= b over the integers), truth tests
+    become `x != 0`, an assignment inside the condition is emitted as an update first"""
+    c = strip(c)
+    if not isinstance(c, dict):
+        return str(c)
+    k = c.get("k")
+    if k == "Un" and c["op"] == "!":
+        inner = _canon_cond(c["e"], names, ids, out, line)
+        return "not(%s)" % inner
+    if k == "Bin" and c["op"] in ("&&", "||"):
+        return "(%s %s %s)" % (_canon_cond(c["x"], names, ids, out, line), c["op"], _canon_cond(c["y"], names, ids, out, line))
+    if k == "Bin" and c["op"] in ir.ASSIGN_OPS and field_of(c["x"], ids):
+        out.append(("set " + _canon_set(c, names, ids), line))
+        return _canon_cond(c["y"] if c["op"] == "=" else c["x"], names, ids, out, line)
+    if k == "Bin" and c["op"] in ("<", "<=", ">", ">=", "==", "!=") and not strip(c["x"]).get("p") and not strip(c["y"]).get("p"):
+        op = c["op"]
+        x, y = c["x"], c["y"]
+        if op in (">", ">="):
+            x, y, op = y, x, "<" if op == ">" else "<="
+        t = _lin_terms(x, names, ids, 1)
+        _lin_terms(y, names, ids, -1, t)
+        if op == "<":
+            t[""] = t.get("", 0) + 1
+            op = "<="
+        if op in ("==", "!="):
+            # sign convention: first non-zero coefficient positive
+            lead = next((cf for a, cf in sorted(t.items()) if cf != 0), 1)
+            if lead < 0:
+                t = {a: -cf for a, cf in t.items()}
+        return "[%s %s 0]" % (_fmt_terms(t), op)
+    if k in ("Ref", "Member", "Index", "Call") or (k == "Bin" and c["op"] not in ("&&", "||")):
+        return "[%s != 0]" % _fmt_terms(_lin_terms(c, names, ids, 1))
+    return _canon(c, names, ids)
+
+
+def _canon_set(n, names, ids):
+    """`F op= e` as `F = sum`"""
+    lhs = _canon(n["x"], names, ids)
+    op = n["op"]
+    if op == "=":
+        return "%s = %s" % (lhs, _fmt_terms(_lin_terms(n["y"], names, ids, 1)))
+    if op in ("+=", "-="):
+        t = _lin_terms(n["x"], names, ids, 1)
+        _lin_terms(n["y"], names, ids, 1 if op == "+=" else -1, t)
+        return "%s = %s" % (lhs, _fmt_terms(t))
+    return "%s %s %s" % (lhs, op, _canon(n["y"], names, ids))
+
+
 def skeleton(f, pidx):
     """the buffering skeleton of a Step function: its branch/loop conditions and its updates of scalar state fields, in
     order, with locals renamed and the data operations (calls) abstracted"""
     ids = state_aliases(f, pidx)
-    names, out = {}, []
+    from . import vp
+    names, out = {"#syms": vp.single_assign_syms(f)}, []
 
     def rec(s):
         if not isinstance(s, dict):
             return
         k = s.get("k")
         if k == "If":
-            out.append(("if " + _canon(s["c"], names, ids), s.get("l")))
+            cc = _canon_cond(s["c"], names, ids, out, s.get("l"))
+            out.append(("if " + cc, s.get("l")))
             rec(s.get("then"))
             if s.get("else"):
                 out.append(("else", s.get("l")))
                 rec(s["else"])
         elif k in ("While", "Do", "For"):
-            out.append((k + " " + (_canon(s["c"], names, ids) if s.get("c") else ""), s.get("l")))
+            pre = []
+            cc = _canon_cond(s["c"], names, ids, pre, s.get("l")) if s.get("c") else ""
+            out.append(("loop " + cc, s.get("l")))
+            out.extend(pre)
             rec(s.get("body"))
         elif k == "Block":
             for x in s.get("b", []):
@@ -391,16 +501,16 @@ def skeleton(f, pidx):
         else:
             for n in walk(s):
                 if n.get("k") == "Bin" and n["op"] in ir.ASSIGN_OPS and strip(n["x"]).get("k") == "Member" and field_of(n["x"], ids):
-                    out.append(("set " + _canon(n, names, ids), n.get("l")))
+                    out.append(("set " + _canon_set(n, names, ids), n.get("l")))
     rec(f.body)
     return out
 
 
 def check_sibling_steps(prog, res, rule):
-    fam = {sn: {f.name: (f, pi) for f, pi in fs} for (rel, sn), fs in families(prog).items()}
+    allf = {f.name: (f, pi) for (rel, sn), fs_ in families(prog).items() for f, pi in fs_}
     n = 0
     for sn, names in sorted(SIBLINGS.items()):
-        fs = fam.get(sn, {})
+        fs = {x: allf[x] for x in names if x in allf}
         missing = [x for x in names if x not in fs]
         if missing:
             raise AnalysisBroken("sibling Step functions %s of %s vanished" % (missing, sn))
